@@ -313,7 +313,13 @@ func smtName(s string) string {
 }
 
 func typeKey(t types.Type) string {
-	return smtName(types.TypeString(t, func(p *types.Package) string { return p.Name() }))
+	return smtName(types.TypeString(t, func(p *types.Package) string {
+		path := p.Path()
+		if strings.HasPrefix(path, "github.com/tendermint/tendermint/") {
+			return strings.ReplaceAll(strings.TrimPrefix(path, "github.com/tendermint/tendermint/"), "/", ".")
+		}
+		return strings.ReplaceAll(path, "/", ".")
+	}))
 }
 
 func (v *Value) String() string {
